@@ -80,6 +80,6 @@ def decode_segment(seg, strings):
 
 def decode_dm(dm, strings):
     out = {'placeholder_count': dm['pc'], 'state': dm['s']}
-    if 'seg' in dm:
+    if dm['pc'] and 'seg' in dm:          # a placeholder count of 0 carries no segment list
         out['segments'] = [decode_segment(s, strings) for s in dm['seg']]
     return out
